@@ -128,7 +128,8 @@ func c14Worker(args []string) {
 			emit(c14Event{Cycle: ci, Name: cy.Name, Event: "violation", Detail: what, Data: data})
 		}
 		r := gen.RNG(*seed, "C14/"+cy.Name)
-		configureHooks("", cy.Delays, *seed)
+		evPath := fmt.Sprintf("%s.events.%d", *logPath, ci)
+		configureHooks(evPath, cy.Delays, *seed)
 		emit(c14Event{Cycle: ci, Name: cy.Name, Event: "step", Detail: "Run"})
 		job := server.Run(&cfg, ps)
 		type result struct {
@@ -252,6 +253,29 @@ func c14Worker(args []string) {
 		}
 		nres := len(results)
 		rmu.Unlock()
+		// server-side order: once the outer job has finished shutting down (AwaitStop can return),
+		// no prove handler may still be running
+		if hooksCompiled {
+			configureHooks("", "", *seed) // closes the event log of this cycle
+			evs := readEvents(evPath)
+			lastShutdown := -1
+			for i, e := range evs {
+				if e.name == "job.afterShutdown" {
+					lastShutdown = i
+				}
+			}
+			late := 0
+			for i, e := range evs {
+				if i > lastShutdown && lastShutdown >= 0 && strings.HasPrefix(e.name, "prove.") {
+					late++
+				}
+			}
+			if late > 0 {
+				vio(fmt.Sprintf("%d prove-handler events were logged after the last job finished shutting down: waiting-for-stop can return while an accepted request is still being processed", late),
+					map[string]any{"timing": cy.Timing, "delays": cy.Delays, "events": len(evs)})
+			}
+			os.Remove(evPath)
+		}
 		emit(c14Event{Cycle: ci, Name: cy.Name, Event: "end", Data: map[string]any{"responses": nres, "await_ms": awaitMs, "skipped_timing": skip}})
 	}
 	lf.Close()
@@ -367,11 +391,20 @@ func c14InProcess(o *cli.Opts, run *evid.Run, self string, ks *keyset) {
 }
 
 func c14CLI(o *cli.Opts, run *evid.Run, ks *keyset) {
-	bin, err := proc.BuildBinary(o.Out, o.Scratch, o.Repo, false)
+	// thorough: the CLI cycles run on the -race build and its log is checked afterwards
+	bin, err := proc.BuildBinary(o.Out, o.Scratch, o.Repo, o.Thorough())
 	if err != nil {
 		run.Violate("C14/build", err.Error(), nil)
 		return
 	}
+	racePrefix := filepath.Join(o.Scratch, "race-c14")
+	defer func() {
+		if o.Thorough() {
+			if total, dedup := countRaces(racePrefix); total > 0 {
+				run.Violate("C14/cli/data-race", fmt.Sprintf("the race detector reported %d data race(s) during start/stop cycles: %s", total, strings.Join(dedup, "; ")), nil)
+			}
+		}
+	}()
 	ports := proc.FreePorts(2)
 	pAddr, mAddr := fmt.Sprintf("127.0.0.1:%d", ports[0]), fmt.Sprintf("127.0.0.1:%d", ports[1])
 	for ci, cy := range c14Plan(o, true) {
@@ -380,7 +413,7 @@ func c14CLI(o *cli.Opts, run *evid.Run, ks *keyset) {
 			continue
 		}
 		r := gen.RNG(o.Seed, key)
-		env := []string{"VERIF_DELAYS=" + cy.Delays, fmt.Sprintf("VERIF_SEED=%d", o.Seed)}
+		env := []string{"VERIF_DELAYS=" + cy.Delays, fmt.Sprintf("VERIF_SEED=%d", o.Seed), "GORACE=halt_on_error=0 log_path=" + racePrefix}
 		srv, err := proc.StartServerOn(bin, ks.mode, ks.path, o.Scratch, fmt.Sprintf("c14-cli-%d", ci), env, pAddr, mAddr)
 		if err != nil {
 			// the same addresses as the previous cycle: a failure to come up is itself a finding if the previous server left them bound
